@@ -148,8 +148,9 @@ def run(ctx):
         T.SYMKIND.pop(k_, None)
     ctx.clause = 'D2'
     for fi, II, rr in ((an, I, r), (ao, I2, r2)):
+        # (everything the entry function does, also through another noise routine it delegates to)
         adds = [e for e in II.events if e.kind == 'store' and e.data.get('target') == 'attr' and e.data.get('name') == 'data'
-                and e.owner == fi.short]
+                and e.data['base'].key == sym('self').key]
         ctx.require(adds, f'{fi.short}: no accumulation into self.data found')
         # (one addition per call: several statements are fine when their path conditions exclude one another, e.g. one per
         #  early-returning branch)
